@@ -111,6 +111,14 @@ def mon_items(tier):
     for sp in F.auto_component_specs():
         for aa in (False, True):
             out.append((sp, {"rule": "TSLACK", "auto_abs": aa, "max_time": F.seq_bound(sp) + 12}))
+    # a manual task whose finishing waits for an automatic task (FF/SF), next to a long unrelated task that keeps the run going
+    for kind in ("FF", "SF", "SS"):
+        for w1 in (1.0, 2.0):
+            for lay in ("DED", "MIX"):
+                fl = {"tasks": [{"name": "T0", "work": 5.0}, {"name": "T1", "work": w1, "auto": True, "unit": 0.5}, {"name": "T2", "work": 1.0}], "links": [[1, 2, kind]]}
+                sp = F.with_teams(fl, lay)
+                for aa in (False, True):
+                    out.append((sp, {"rule": "TSLACK", "auto_abs": aa, "max_time": 20}))
     return out
 
 
